@@ -91,14 +91,17 @@ def workdir_for(tag):
 
 def run_tlc(workdir, module, *, cfg=None, workers=None, dump=False, coverage=True, simulate=None,
             depth=None, seed=None, timeout=1500, deadlock=True, env=None, java_opts=(), extra=(),
-            heap="8g"):
+            heap="3g", young="512m"):
     """Run TLC on `module` (in workdir).  Returns TLCResult.  Raises MachineryError on crashes."""
     r = TLCResult()
     r.workdir = workdir
     workers = workers or min(16, os.cpu_count() or 4)
     meta = os.path.join(workdir, "meta_" + module)
     shutil.rmtree(meta, True)
-    cmd = ["java", "-XX:+UseParallelGC", "-Xmx" + heap, "-Xss16m"] + list(java_opts) + [
+    # NB: touching fresh pages is very slow in this sandbox (~30 MB/s): a fixed, small young generation
+    # that is reused beats the adaptive default by an order of magnitude (measured 46 s -> 3 s).
+    cmd = ["java", "-XX:+UseParallelGC", "-XX:ParallelGCThreads=4", "-XX:-UseAdaptiveSizePolicy", "-Xmn" + young,
+           "-Xmx" + heap, "-Xss16m"] + list(java_opts) + [
         "-cp", JAR, "tlc2.TLC", "-workers", str(workers), "-metadir", meta, "-noGenerateSpecTE"]
     if cfg:
         cmd += ["-config", cfg]
